@@ -40,6 +40,10 @@ Proof.
     destruct (v <=? 2 ^ bits - 1) eqn:E1, (v <? 2 ^ bits) eqn:E2; try reflexivity; lia.
 Qed.
 
+(* (T) visitor_Call converts the argument against the type suggested by a concept unconditionally *)
+Lemma gen_call_rechecked : gen_call_rechecks_suggested_type = true.
+Proof. reflexivity. Qed.
+
 Lemma consts_sound :
   (forall s, forall id, aconst_stmt id s = [] -> rconst_stmt s = true) /\
   (forall b, aconst_block b = [] -> rconst_block b = true) /\
@@ -54,10 +58,12 @@ Proof.
     + apply andb_true_iff. split; [lia | reflexivity].
     + destruct (len <=? k) eqn:E3; [discriminate|].
       apply andb_true_iff. split; lia.
-  - (* ConstConv *) intros t v id H. simpl in *.
+  - (* ConstConv *) intros t v vc id H. cbn [aconst_stmt rconst_stmt] in *. rewrite gen_call_rechecked in H.
+    cbn [negb] in H. rewrite andb_false_r in H.
     destruct (type_info t) as [[b sg]|] eqn:E; [|discriminate].
     rewrite <- inrange_fits by (eapply type_info_pos; eauto).
     destruct (is_inrange b sg v); [reflexivity | discriminate].
+  - (* ConstFrac *) intros t id H. simpl in H. discriminate.
   - (* BCons *) intros id s IHs r IHr H. simpl in *. apply app_nil_inv in H as [H1 H2]. rewrite (IHs id), IHr; auto.
   - (* CCons *) intros cid cv b IHb r IHr H. simpl in *. apply app_nil_inv in H as [H1 H2]. rewrite IHb, IHr; auto.
 Qed.
